@@ -40,6 +40,10 @@ pub enum COp {
         flush: bool,
         #[serde(default)]
         clone_mid: bool,
+        /// vector-child origin only: the batch goes through vec.local() (a local VECTOR), which has
+        /// used a sibling's label values first
+        #[serde(default)]
+        via_local_vec: bool,
     },
     Reset,
 }
@@ -143,11 +147,37 @@ enum CVec {
     F(CounterVec),
     I(IntCounterVec),
 }
+/// label values of the vector child under test, and of a sibling whose values concatenate to the same string
+const ME: [&str; 2] = ["a", "bc"];
+const SIBLING: [&str; 2] = ["ab", "c"];
 impl CVec {
+    /// the batch of `Ctr::batch`, but through a local VECTOR that has used the sibling's label values first
+    fn batch_via_local_vec(&self, bits: &[u8], units: u8, flush: bool, scale: i32) {
+        macro_rules! go {
+            ($v:expr, $conv:expr, $zero:expr) => {{
+                let mut lv = $v.local();
+                lv.with_label_values(&SIBLING).inc_by($zero);
+                for b in bits {
+                    lv.with_label_values(&ME).inc_by($conv(1u64 << b));
+                }
+                for _ in 0..units {
+                    lv.with_label_values(&ME).inc();
+                }
+                if flush {
+                    lv.flush();
+                    lv.flush();
+                }
+            }};
+        }
+        match self {
+            CVec::F(v) => go!(v, |x: u64| scale_by(x as f64, scale), 0.0),
+            CVec::I(v) => go!(v, |x: u64| x, 0),
+        }
+    }
     fn child(&self) -> Ctr {
         match self {
-            CVec::F(v) => Ctr::F(v.with_label_values(&["x"])),
-            CVec::I(v) => Ctr::I(v.with_label_values(&["x"])),
+            CVec::F(v) => Ctr::F(v.with_label_values(&ME)),
+            CVec::I(v) => Ctr::I(v.with_label_values(&ME)),
         }
     }
     fn collect(&self) -> Vec<proto::MetricFamily> {
@@ -188,7 +218,7 @@ impl C01 {
                         let nb = 1 + r.below(3) as u8;
                         let bits = (0..nb).map(|i| next_bit + i).collect();
                         next_bit += nb;
-                        COp::LocalBatch { bits, units: r.below(3) as u8, flush: !r.chance(12), clone_mid: r.chance(30) }
+                        COp::LocalBatch { bits, units: r.below(3) as u8, flush: !r.chance(12), clone_mid: r.chance(30), via_local_vec: r.chance(35) }
                     }
                     _ => {
                         if reset_run && !reset_placed {
@@ -236,8 +266,8 @@ impl C01 {
         // a standalone counter is a single handle shared by reference (never cloned by the harness):
         // code paths that depend on the handle count are exercised as well
         let (ctr, vec, reg): (Option<Arc<Ctr>>, Option<CVec>, Option<Registry>) = match (&plan.origin, &plan.flavour) {
-            (Origin::VecChild, Flavour::Float) => (None, Some(CVec::F(CounterVec::new(opts, &["l"]).unwrap())), None),
-            (Origin::VecChild, Flavour::Int) => (None, Some(CVec::I(IntCounterVec::new(opts, &["l"]).unwrap())), None),
+            (Origin::VecChild, Flavour::Float) => (None, Some(CVec::F(CounterVec::new(opts, &["l", "m"]).unwrap())), None),
+            (Origin::VecChild, Flavour::Int) => (None, Some(CVec::I(IntCounterVec::new(opts, &["l", "m"]).unwrap())), None),
             (o, Flavour::Float) => {
                 let c = Counter::with_opts(opts).unwrap();
                 let reg = if *o == Origin::Registry {
@@ -296,10 +326,16 @@ impl C01 {
                             (None, Some(v)) => v.collect(),
                             _ => c.collect(),
                         };
-                        Some(compat::single_value(&mfs).unwrap_or(f64::NAN))
+                        // (a vector may also hold the sibling child: pick the sample of the child under test)
+                        let fam = mfs.first().map(compat::family_of);
+                        let mine = fam.as_ref().and_then(|f| if f.metrics.len() <= 1 { f.metrics.first() } else { f.metrics.iter().find(|m| m.labels.iter().any(|(k, v)| k == "l" && v == ME[0]) && m.labels.iter().any(|(k, v)| k == "m" && v == ME[1])) });
+                        Some(mine.and_then(|m| m.counter.or(m.gauge)).unwrap_or(f64::NAN))
                     }
-                    COp::LocalBatch { bits, units, flush, clone_mid } => {
-                        c.batch(bits, *units, *flush, *clone_mid, scale);
+                    COp::LocalBatch { bits, units, flush, clone_mid, via_local_vec } => {
+                        match (&vec, *via_local_vec && !*clone_mid) {
+                            (Some(v), true) => v.batch_via_local_vec(bits, *units, *flush, scale),
+                            _ => c.batch(bits, *units, *flush, *clone_mid, scale),
+                        }
                         None
                     }
                     COp::Reset => {
@@ -367,7 +403,7 @@ fn judge_counter(plan: &CounterPlan, iv: &std::collections::BTreeMap<u32, (usize
         match op {
             COp::IncBy(k) => incs.push(IncOp { inv, ret, bits: 1u64 << k, units: 0 }),
             COp::Inc => plain_units.push((inv, ret)),
-            COp::LocalBatch { bits, units, flush, clone_mid } => {
+            COp::LocalBatch { bits, units, flush, clone_mid, .. } => {
                 if *flush && !*clone_mid {
                     incs.push(IncOp { inv, ret, bits: bits.iter().fold(0, |a, b| a | 1u64 << b), units: *units as u64 })
                 } else if *flush {
